@@ -488,3 +488,79 @@ func GenInitWindow(r *hx.RNG, i int) []string {
 	out = append(out, fmt.Sprintf("D%s:3:1:-:z5.1", Y))
 	return out
 }
+
+// GenRaisedMaxFrame (C09): the receiver raised MAX_FRAME_SIZE above 16384 and opened the stream
+// windows; a DATA frame of size s > 16384 waits because the CONNECTION window c satisfies
+// 16384 <= c < s; then connection-level grants below, at and above s - c.
+func GenRaisedMaxFrame(r *hx.RNG, i int) []string {
+	pick := func(xs ...int) int { return xs[r.Intn(len(xs))] }
+	maxf := []int{32768, 32768, 40000, 65535}[i%4]
+	out := []string{fmt.Sprintf("Ss:5=%d,4=1048576", maxf), "Hc:1:0:1:-:-:0:0"}
+	f1 := pick(20000, 30000, 32768) // leaves c = 65535 - f1 in [32767, 45535]
+	if f1 > maxf {
+		f1 = maxf
+	}
+	c := 65535 - f1
+	out = append(out, fmt.Sprintf("Dc:1:0:-:z%d.%d", f1, r.Intn(200)))
+	s := c + pick(1, 1, 2, 1000) // the smallest sizes that do not fit c
+	if s > maxf {
+		// make c smaller instead: a second frame that still fits
+		f2 := c - 16384 - pick(0, 1, 100)
+		out = append(out, fmt.Sprintf("Dc:1:0:-:z%d.%d", f2, r.Intn(200)))
+		c -= f2
+		s = c + pick(1, 2, 1000)
+		if s > maxf {
+			s = maxf
+		}
+	}
+	if s <= 16384 {
+		s = 16385
+	}
+	out = append(out, fmt.Sprintf("Dc:%d:0:-:z%d.%d", pick(1, 1, 3), s, r.Intn(200)))
+	if r.Chance(1, 2) {
+		out = append(out, fmt.Sprintf("Dc:1:1:-:z%d.1", pick(1, 10)))
+	}
+	need := s - c
+	for _, k := range []int{need - 1, 1, 1} {
+		if k >= 1 {
+			out = append(out, fmt.Sprintf("Ws:0:%d", k))
+			need -= k
+		}
+		if need <= 0 {
+			break
+		}
+	}
+	out = append(out, fmt.Sprintf("Ws:0:%d", pick(1, 5, 100)))
+	return out
+}
+
+// GenOtherSettings (C09): the identifiers the relay does NOT interpret carry large values
+// (MAX_HEADER_LIST_SIZE, MAX_CONCURRENT_STREAMS, ENABLE_PUSH, ENABLE_CONNECT_PROTOCOL, unknown ids)
+// and must not influence the frame size, the windows or the table size; or a real
+// MAX_FRAME_SIZE change is followed by DATA larger than the old value.
+func GenOtherSettings(r *hx.RNG, i int) []string {
+	pick := func(xs ...int) int { return xs[r.Intn(len(xs))] }
+	y := i % 2
+	Y, X := sides[y], sides[1-y]
+	var out []string
+	maxf := 16384
+	others := fmt.Sprintf("3=%d,6=%d,2=%d,8=1,%d=%d", pick(100, 4294967295), pick(100, 20000, 1048576, 16777215, 4294967295),
+		r.Intn(2), pick(16, 61440, 65535), pick(0, 30000, 16777215))
+	switch i % 3 {
+	case 0:
+		out = append(out, fmt.Sprintf("S%s:%s", X, others))
+	case 1:
+		maxf = pick(16385, 20000, 32768)
+		out = append(out, fmt.Sprintf("S%s:5=%d", X, maxf), fmt.Sprintf("S%s:%s", X, others))
+	case 2:
+		maxf = pick(20000, 32768)
+		out = append(out, fmt.Sprintf("S%s:6=%d,5=%d,6=%d", X, pick(100, 1048576), maxf, pick(100, 1048576)))
+	}
+	out = append(out, fmt.Sprintf("H%s:1:0:1:-:-:0:0", Y))
+	// DATA larger than the old maximum (and around the new one)
+	for _, n := range []int{16385, pick(maxf-1, maxf, maxf+1, 30000)} {
+		out = append(out, fmt.Sprintf("D%s:1:0:%s:z%d.%d", Y, []string{"-", "-", "7"}[r.Intn(3)], n, r.Intn(200)))
+	}
+	out = append(out, fmt.Sprintf("W%s:0:70000", X), fmt.Sprintf("W%s:1:70000", X))
+	return out
+}
